@@ -42,9 +42,9 @@ CLAIMED = {
  "C15": dict(level="exploration", technique="property-based testing of enum destructuring + static API scan + rejected mutants",
              text="After every close every id of every enum type is destructured (<enum>_cases and <enum>_case) and re-constructed; the emitted API is scanned for element constructors that bypass constructors; mutant rules defining non-constructor enum terms must be rejected.",
              note="Histories create enum elements only through constructor applications because the API offers nothing else.", ref="3/C15"),
- "C16": dict(level="exploration", technique="generated programs; executable predicate over the emitted rule functions (all 2^n new/old labellings per family)",
-             text="For every generated program the emitted sub-rule families are parsed (flat-rule comment and index fields read per premise position) and every new/old labelling is checked to be admitted by exactly one sub-rule (none for all-old).",
-             note="A statement about emitted plans; decided by enumeration over labellings for each generated program, not by running the model.", ref="3/C16"),
+ "C16": dict(level="exploration", technique="property-based testing: generated programs; (static) executable predicate over the emitted rule functions for all 2^n new/old labellings per family; (dynamic) generated API histories, the emitted rule functions of one iteration executed into fresh deltas and the multiset of enumerated matches compared with a naive nested-loop enumeration over the dumped new/old tables",
+             text="Static: for every generated program the emitted sub-rule families are parsed (flat-rule comment and index fields read per premise position) and every new/old labelling is checked to be admitted by exactly one sub-rule (none for all-old). Dynamic: on states reached by generated histories (before closes, inside partially run close_until, at the end) every rule is run once into a fresh ModelDelta; every match with a new tuple must be pushed exactly once and no all-old match at all.",
+             note="Atoms and conclusions of a family are read from the flat-rule comments (whether the source rule was lowered correctly is C01/C02). Rules with empty premise and premise atoms the judge cannot interpret are skipped and counted.", ref="3/C16 and 11.2"),
  "C17": dict(level="exploration", technique="property-based testing of model programs against a reference chase with inheritance spelled out as rules (isomorphism after every close)",
              text="Generated programs with one model declaration and rules over member atoms; generated acyclic morphism graphs, member/global facts and schedules (morphism rows, facts and closes interleaved); after every close the model must be closed and isomorphic to the reference chase in which inheritance along morphisms is an ordinary rule.",
              note="Member relations range over global types only; morphism graphs acyclic by construction; the trigger of the recorded finding (morphism rows after a close that saw facts) is excluded from generation and demonstrated by a replay.", ref="3/C17"),
